@@ -15,16 +15,22 @@
 (*          position):                                                     *)
 (*          "req" | "const" (a constant default) | "ref1".."ref3" (default *)
 (*          = the 1st..3rd parameter) | "glob" (default = $g, a global     *)
-(*          that the call site shadows with a local of its own)            *)
+(*          that the call site shadows with a local of its own) | "next"   *)
+(*          (default = a variable named like the NEXT parameter; the       *)
+(*          definition site has variables $b-x: 42, $c: 43, $d: 44)        *)
 (*   rest   1 = a rest parameter $r... follows                             *)
 (*   npos   number of positional arguments (values 11, 12, ..)             *)
-(*   named  names of the named arguments as spelled (b_x = b-x)            *)
+(*   named  names of the explicit named arguments as spelled (b_x = b-x),  *)
+(*          values 21..29                                                  *)
+(*   mnamed keys of a trailing map splat `$mp...` (values 61..69); a key   *)
+(*          may repeat an explicit name                                    *)
 (*   psplat "none" | "all" | "tail": positional arguments passed directly, *)
-(*          all through a list splat, or all but the first through it      *)
-(*   nsplat "none" | "all": named arguments passed directly or through a   *)
-(*          map splat                                                      *)
+(*          all through a list splat, or all but the first through it;     *)
+(*          "fwd": positional and explicit named arguments reach the call  *)
+(*          as a forwarded argument list `$args...` (named = its keywords) *)
 (* Observable: values of the parameters, elements of the rest list, its    *)
-(* keywords sorted by name - or "err".                                     *)
+(* keywords sorted by name - or "err".  Where a name is passed explicitly  *)
+(* and by the map splat the property admits several outcomes (Admissible). *)
 (*                                                                         *)
 (* Input kind "ret": a function body of items followed by `@return 59`:    *)
 (*   "ret" @return | "ift" @if true {@return} | "iff" @if false {@return}  *)
@@ -32,17 +38,24 @@
 (*   "each0" the same loop never returning | "while" @while true {@return} *)
 (* item i returns 50 + i.  Observable: the returned value.                 *)
 (*                                                                         *)
-(* Named deviations (what the pinned tree does instead):                   *)
+(* Named deviations (what the pinned tree did instead; both repaired in    *)
+(* /repo, kept so that a regression is recognised for what it is):         *)
 (*   rest_takes_dup_named  with a rest parameter, a named argument for a   *)
 (*                         parameter already bound by position is not an   *)
 (*                         error: it lands in the rest keywords            *)
 (*   rest_by_name          a single leftover named argument spelled like   *)
 (*                         the rest parameter *becomes* the rest value     *)
 (*                         (not an argument list: keywords() fails)        *)
+(* and one that is open:                                                   *)
+(*   dup_named_call_unparsed  a function call that names the same argument *)
+(*                         twice ($b-x and $b_x) is not an error: the      *)
+(*                         parser backtracks and the call is emitted as    *)
+(*                         plain CSS text (or fails on an unrelated        *)
+(*                         undefined variable); mixin includes do fail     *)
 (***************************************************************************)
 EXTENDS Integers, Sequences, FiniteSets, TLC
 
-AllDevs == {"rest_takes_dup_named", "rest_by_name"}
+AllDevs == {"rest_takes_dup_named", "rest_by_name", "dup_named_call_unparsed"}
 
 ParamNames == <<"a", "b-x", "c", "d">>
 RestName   == "r"
@@ -51,7 +64,9 @@ Norm(n)    == IF n = "b_x" THEN "b-x" ELSE n          \* - and _ are equivalent 
 (* the value passed for a named argument, by its spelling *)
 NamedVal(s) == CASE s = "a" -> 21 [] s = "b-x" -> 22 [] s = "c" -> 23 [] s = "d" -> 24 [] s = "b_x" -> 26
                  [] s = "y" -> 27 [] s = "r" -> 28 [] s = "z" -> 29
+MapVal(n)    == NamedVal(n) + 40          \* the value a key of the map splat carries (61..69)
 PosVal(i)    == 10 + i
+OuterVal(i)  == 40 + i                    \* definition-site variables named like the parameters: $b-x: 42, $c: 43, $d: 44
 ConstDef(j)  == 30 + j
 GlobVal      == 40          \* $g at the definition site; the call site has a local $g: 41
 NameOrder    == <<"a", "b-x", "c", "d", "r", "y", "z">>      \* keywords are reported sorted by name
@@ -75,6 +90,7 @@ BindFrom(inp, j, vals, namedOf) ==
                           [] d = "ref2"  -> vals[2]
                           [] d = "ref3"  -> vals[3]
                           [] d = "glob"  -> GlobVal
+                          [] d = "next"  -> OuterVal(j + 1)       \* the later parameter is not bound yet: definition site
                           [] d = "req"   -> -1
        IN IF v = -1 THEN <<-1>> ELSE BindFrom(inp, j + 1, Append(vals, v), namedOf)
 
@@ -84,16 +100,28 @@ SortedKw(names, namedOf, i) ==
   ELSE (IF NameOrder[i] \in names THEN <<[n |-> NameOrder[i], v |-> namedOf[NameOrder[i]]]>> ELSE <<>>)
        \o SortedKw(names, namedOf, i + 1)
 
-BindExpect(inp, dev) ==
+(* the named arguments of a call: explicit ones (as spelled) and the keys   *)
+(* of a map splat; W = overlapping names for which the explicit value wins *)
+ExplicitNames(inp) == {Norm(inp.named[i]) : i \in 1..Len(inp.named)}
+MapNames(inp)      == SeqSet(inp.mnamed)
+Overlap(inp)       == ExplicitNames(inp) \cap MapNames(inp)
+DupExplicit(inp)   == Cardinality(ExplicitNames(inp)) < Len(inp.named)       \* the same argument named twice
+
+BindWith(inp, dev, W) ==
   LET k       == Len(inp.defs)
-      nn      == Len(inp.named)
-      names   == {Norm(inp.named[i]) : i \in 1..nn}
-      dup     == Cardinality(names) < nn                    \* the same argument named twice
-      namedOf == [n \in names |-> NamedVal(CHOOSE s \in SeqSet(inp.named) : Norm(s) = n)]
+      en      == ExplicitNames(inp)
+      mn      == MapNames(inp)
+      names   == en \cup mn
+      namedOf == [n \in names |->
+                    IF n \in mn /\ n \notin W THEN MapVal(n)
+                    ELSE NamedVal(CHOOSE sp \in SeqSet(inp.named) : Norm(sp) = n)]
       bypos   == {ParamNames[j] : j \in 1..Min(inp.npos, k)}
       params  == {ParamNames[j] : j \in 1..k}
   IN
-  IF dup THEN ErrObs
+  IF DupExplicit(inp) THEN
+       \* the same argument named twice is an error; the pinned tree does not recognise such a
+       \* *function* call as a call at all (plain CSS text comes out): nothing is predicted
+       (IF "dup_named_call_unparsed" \in dev /\ inp.ctx = "function" THEN UndefObs ELSE ErrObs)
   ELSE IF inp.npos > k /\ inp.rest = 0 THEN ErrObs                          \* too many positional arguments
   ELSE IF bypos \cap names # {} /\ ~(inp.rest = 1 /\ "rest_takes_dup_named" \in dev)
        THEN ErrObs                                                          \* passed both by position and by name
@@ -107,15 +135,27 @@ BindExpect(inp, dev) ==
                   rest |-> [i \in 1..(IF inp.npos > k THEN inp.npos - k ELSE 0) |-> PosVal(k + i)],
                   kw |-> SortedKw(extra, namedOf, 1)]
 
+(* reference reading: a key of the map splat replaces an explicit argument of the same name *)
+BindExpect(inp, dev) == BindWith(inp, dev, {})
+
+(* What the property fixes when a name is passed explicitly (or as a       *)
+(* keyword of a forwarded argument list) AND as a key of the map splat:    *)
+(* the call is an error ("duplicated"), or the name is passed exactly once *)
+(* with either value - never twice, never reported by keywords when it is  *)
+(* a declared parameter.                                                    *)
+BindAdmissible(inp) ==
+  IF Overlap(inp) = {} \/ DupExplicit(inp) THEN {BindExpect(inp, {})}
+  ELSE {BindWith(inp, {}, W) : W \in SUBSET Overlap(inp)} \cup {ErrObs}
+
 (* declarative reading of the same rule, parameter by parameter *)
 LawBind(inp, o) ==
   LET k      == Len(inp.defs)
-      names  == {Norm(inp.named[i]) : i \in 1..Len(inp.named)}
+      names  == ExplicitNames(inp) \cup MapNames(inp)
       params == {ParamNames[j] : j \in 1..k}
       given(j) == j <= inp.npos \/ ParamNames[j] \in names
   IN
   /\ (o.k = "err") <=>
-        \/ Cardinality(names) < Len(inp.named)                                         \* duplicated
+        \/ DupExplicit(inp)                                                            \* duplicated
         \/ (inp.rest = 0 /\ inp.npos > k)                                              \* too many
         \/ \E j \in 1..Min(inp.npos, k) : ParamNames[j] \in names                      \* duplicated (position and name)
         \/ (inp.rest = 0 /\ names \ params # {})                                       \* unknown
@@ -124,11 +164,17 @@ LawBind(inp, o) ==
         /\ Len(o.ps) = k
         /\ \A j \in 1..k :
              /\ j <= inp.npos => o.ps[j] = PosVal(j)
-             /\ (j > inp.npos /\ ParamNames[j] \in names) => o.ps[j] \in {21, 22, 23, 24, 26}
+             /\ (j > inp.npos /\ ParamNames[j] \in names) => o.ps[j] \in {21, 22, 23, 24, 26, 61, 62, 63, 64}
+             \* a default never sees a later parameter: "next" reads the definition-site variable
              /\ ~given(j) => o.ps[j] = (CASE inp.defs[j] = "const" -> ConstDef(j) [] inp.defs[j] = "ref1" -> o.ps[1]
-                                          [] inp.defs[j] = "ref2" -> o.ps[2] [] inp.defs[j] = "ref3" -> o.ps[3] [] inp.defs[j] = "glob" -> GlobVal)
+                                          [] inp.defs[j] = "ref2" -> o.ps[2] [] inp.defs[j] = "ref3" -> o.ps[3]
+                                          [] inp.defs[j] = "glob" -> GlobVal [] inp.defs[j] = "next" -> OuterVal(j + 1))
         /\ Len(o.rest) = (IF inp.rest = 1 /\ inp.npos > k THEN inp.npos - k ELSE 0)
         /\ {o.kw[i].n : i \in DOMAIN o.kw} = (IF inp.rest = 1 THEN names \ params ELSE {})
+  \* every admissible outcome passes each name once: keywords hold each extra name once and no declared parameter
+  /\ \A a \in BindAdmissible(inp) :
+        (a.k = "ok") => /\ \A i, j \in DOMAIN a.kw : i # j => a.kw[i].n # a.kw[j].n
+                        /\ {a.kw[i].n : i \in DOMAIN a.kw} \cap params = {}
 
 ---------------------------------------------------------------------------
 (* first @return reached                                                    *)
@@ -151,6 +197,11 @@ LawRet(inp, o) ==
 ---------------------------------------------------------------------------
 Expect(inp, dev) == IF inp.kind = "bind" THEN BindExpect(inp, dev) ELSE RetExpect(inp)
 Ideal(inp) == Expect(inp, {})
+Admissible(inp) == IF inp.kind = "bind" THEN BindAdmissible(inp) ELSE {RetExpect(inp)}
+RECURSIVE SetSeq(_)
+SetSeq(S) == IF S = {} THEN <<>> ELSE LET x == CHOOSE x \in S : TRUE IN <<x>> \o SetSeq(S \ {x})
+(* the admissible observables as a sequence, the reference one first; empty when there is only one *)
+AdmSeq(inp) == LET A == Admissible(inp) IN IF Cardinality(A) <= 1 THEN <<>> ELSE <<Ideal(inp)>> \o SetSeq(A \ {Ideal(inp)})
 Pinned(inp) == Expect(inp, AllDevs)
 Law(inp) == IF inp.kind = "bind" THEN LawBind(inp, Ideal(inp)) ELSE LawRet(inp, Ideal(inp))
 
@@ -162,20 +213,21 @@ DevMap(inp) ==
   IN [d \in keys |-> r]
 
 Ctxs == {"mixin", "function", "content"}
-Defs == {"req", "const", "ref1", "ref2", "ref3", "glob"}
+Defs == {"req", "const", "ref1", "ref2", "ref3", "glob", "next"}
+MapKeys == {"a", "b-x", "c", "d", "r", "y", "z"}
 Spellings == {"a", "b-x", "b_x", "c", "d", "r", "y", "z"}
 WellFormed(inp) ==
   /\ inp.ctx \in Ctxs
   /\ CASE inp.kind = "bind" ->
             /\ Len(inp.defs) <= 4 /\ SeqSet(inp.defs) \subseteq Defs
-            /\ \A j \in DOMAIN inp.defs : (inp.defs[j] = "ref1" => j > 1) /\ (inp.defs[j] = "ref2" => j > 2) /\ (inp.defs[j] = "ref3" => j > 3)
+            /\ \A j \in DOMAIN inp.defs : (inp.defs[j] = "ref1" => j > 1) /\ (inp.defs[j] = "ref2" => j > 2) /\ (inp.defs[j] = "ref3" => j > 3) /\ (inp.defs[j] = "next" => j <= 3)
             /\ inp.rest \in {0, 1} /\ inp.npos \in 0..6
             /\ SeqSet(inp.named) \subseteq Spellings
             /\ \A i, j \in DOMAIN inp.named : i # j => inp.named[i] # inp.named[j]     \* the same spelling twice does not parse
-            /\ inp.psplat \in {"none", "all", "tail"} /\ inp.nsplat \in {"none", "all"}
+            /\ SeqSet(inp.mnamed) \subseteq MapKeys
+            /\ \A i, j \in DOMAIN inp.mnamed : i # j => inp.mnamed[i] # inp.mnamed[j]
+            /\ inp.psplat \in {"none", "all", "tail", "fwd"}
             /\ (inp.psplat = "all" => inp.npos >= 1) /\ (inp.psplat = "tail" => inp.npos >= 2)
-            \* map keys are written with hyphens; both spellings of one name only as explicit arguments
-            /\ (inp.nsplat = "all" => inp.named # <<>> /\ "b_x" \notin SeqSet(inp.named))
        [] inp.kind = "ret" ->
             /\ inp.ctx = "function" /\ Len(inp.items) <= 4
             /\ SeqSet(inp.items) \subseteq {"ret", "ift", "iff", "each0", "each1", "each2", "each3", "while"}
